@@ -258,11 +258,12 @@ class Ref3D(object):
         self.bands, self.k, self.lo, self.hi = bands, k, lo, hi
         self.distances = distances_kpc
         self.rows = []
+        per_band = len(ap_table) > 0 and isinstance(ap_table[0], (list, tuple))
         for d in distances_kpc:
             logm = []
             for j in range(len(bands)):
                 ap_au = theta[j] * d * 1000.  # arcsec * pc = AU
-                fl = aperture_flux(ap_table, flux_table[j], ap_au)
+                fl = aperture_flux(ap_table[j] if per_band else ap_table, flux_table[j], ap_au)
                 if fl is None:
                     raise ValueError('aperture below the table')
                 logm.append(math.log10(fl * (1. / d) ** 2))
